@@ -88,6 +88,8 @@ def scan_dids(ops):
             items(op[3])
         elif k == "tree_from_dict":
             items(op[1])
+        elif k == "iter_remove":
+            add(op[2])
     return out
 
 
@@ -111,6 +113,8 @@ class Prober:
         self.nid = {}           # node -> node_id int (recorded at allocation)
         self.static_dids = None
         self.seen_alloc = 0
+        self.nscribble = 0
+        self.alias_msg = None   # set by observe() when re-probing gives other answers than the first pass
 
     # -- key management -----------------------------------------------------
     def _init_dids(self, w):
@@ -165,7 +169,19 @@ class Prober:
 
     # -- asking the implementation (public API only) ---------------------------
     def ids(self, w, nodes):
-        return [w.rel(x) for x in nodes]
+        """read a list-valued answer, then behave as a hostile caller: the returned object is reversed / popped /
+        cleared.  A lookup result is a snapshot - nothing the caller does to it may show in any later answer."""
+        out = [w.rel(x) for x in nodes]
+        if isinstance(nodes, list) and nodes:
+            mode = self.nscribble % 3
+            self.nscribble += 1
+            if mode == 0:
+                nodes.reverse()
+            elif mode == 1:
+                nodes.pop()
+            else:
+                nodes.clear()
+        return out
 
     def getitem(self, w, t, key):
         try:
@@ -215,11 +231,52 @@ class Prober:
 
     def observe(self, w):
         self.update_keys(w)
-        cur = []
+        first = []
         for ti in range(len(w.trees)):
-            cur.append({key: self.ask(w, ti, key) for key in self.keys[ti]})
+            first.append({key: self.ask(w, ti, key) for key in self.keys[ti]})
+        # second pass, after the first one scribbled on every list it was given: same questions, same answers
+        cur = []
+        self.alias_msg = None
+        for ti in range(len(w.trees)):
+            again = {key: self.ask(w, ti, key) for key in self.keys[ti]}
+            cur.append(again)
+            if self.alias_msg is None:
+                for key in self.keys[ti]:
+                    if again[key] != first[ti][key]:
+                        self.alias_msg = (f"tree {ti}: probe {key!r} answered {first[ti][key]} and, after the caller reversed/popped/cleared "
+                                          f"the lists it had been given, {again[key]} (a lookup result must be a snapshot)")
+                        break
         self.obs.append(cur)
         return cur
+
+    # -- results held across a step ------------------------------------------------
+    def hold(self, w):
+        """before a step: keep the list objects of find_all(data_id=) for every id with carriers and of
+        get_clones(add_self=True) of one carrier each, together with copies"""
+        held = []
+        if self.static_dids is None:
+            return held
+        for ti, t in enumerate(w.trees):
+            for e in self.static_dids:
+                try:
+                    r = t.find_all(data_id=e)
+                except Exception:
+                    continue
+                if r:
+                    held.append((f"tree {ti}: find_all(data_id={e!r})", r, list(r)))
+                    try:
+                        c = r[0].get_clones(add_self=True)
+                        held.append((f"tree {ti}: node {w.rel(r[0])}.get_clones(add_self=True)", c, list(c)))
+                    except Exception:
+                        pass
+        return held
+
+    def check_held(self, w, held):
+        for what, obj, snap in held or []:
+            if len(obj) != len(snap) or any(a is not b for a, b in zip(obj, snap)):
+                return (f"{what} was obtained before the step as {[w.rel(x) for x in snap]}; after the step the same list object reads "
+                        f"{[w.rel(x) if x is not None else None for x in obj]} (a lookup result must be a snapshot)")
+        return None
 
     # -- rendering -------------------------------------------------------------
     def column(self, step_obs, ti):
@@ -437,13 +494,95 @@ def provenance_oracle(w, step):
     return None
 
 
-def hooks(ops, stats=None):
-    """(prober, pre, post) for mut_ex.replay"""
+COPY_OPS = ("addnode", "copyto", "addtree", "treecopy", "nodecopy")
+
+
+def snap_branch(n, deep):
+    return (n._data, n._data_id, [snap_branch(c, True) for c in (n._children or [])] if deep else [])
+
+
+def copy_sources(w, op):
+    """what a copying op copies: list of (data object, data_id, children...) taken BEFORE the op; None = not judged"""
+    k = op[0]
+    try:
+        if k == "addnode":
+            _, ti, p, sti, src, did, kind, before, deep = op
+            sn = w.live_node(src, sti)
+            s = snap_branch(sn, bool(deep))
+            return [(s[0], did if did is not None else s[1], s[2])]
+        if k == "copyto":
+            _, sti, src, ti, target, add_self, before, deep = op
+            if add_self:
+                return [snap_branch(w.live_node(src, sti), bool(deep))]
+            root = w.trees[sti]._root if src == 0 else w.live_node(src, sti)
+            return [snap_branch(c, bool(deep)) for c in (root._children or [])]
+        if k == "addtree":
+            _, ti, p, sti, before, deep = op
+            return [snap_branch(c, deep is not False) for c in (w.trees[sti]._root._children or [])]
+        if k == "treecopy":
+            return [snap_branch(c, True) for c in (w.trees[op[1]]._root._children or [])]
+        if k == "nodecopy":
+            _, sti, src, add_self = op
+            sn = w.live_node(src, sti)
+            return [snap_branch(sn, True)] if add_self else [snap_branch(c, True) for c in (sn._children or [])]
+    except Exception:
+        return None
+    return None
+
+
+def copy_provenance_oracle(w, step, sources):
+    """a copied node carries the data_id of the node it was copied from (at every depth of a deep copy)"""
+    if sources is None or step["res"][0] != 0:
+        return None
+    new = [w.raw(n) for n in step.get("new_ids", [])]
+    new = [n for n in new if n is not None and getattr(n, "_tree", None) is not None]
+    newset = {id(n) for n in new}
+    roots = [n for n in new if id(n._parent) not in newset]
+
+    def match(nodes, snaps):
+        used = [False] * len(snaps)
+        for nd in nodes:
+            cands = [i for i, sn in enumerate(snaps) if not used[i] and sn[0] is nd._data]
+            if not cands:
+                continue
+            hit = [i for i in cands if snaps[i][1] == nd._data_id]
+            if not hit:
+                return (f"provenance: copied node {w.rel(nd)} has data_id {nd._data_id!r}; the source node(s) holding the same data object "
+                        f"carry {[snaps[i][1] for i in cands]!r}")
+            used[hit[0]] = True
+            m = match(list(nd._children or []), snaps[hit[0]][2])
+            if m:
+                return m
+        return None
+
+    return match(roots, sources)
+
+
+def hooks(ops, stats=None, probe_from=0):
+    """(prober, pre, post) for mut_ex.replay.  Steps before `probe_from` are not probed (their entry in
+    prober.obs is None): an alternative of an exhaustive group only needs the answers after its set-up."""
     pr = Prober(ops)
 
+    def pre(w, si, op):
+        if si < probe_from:
+            return None
+        return dict(held=pr.hold(w), sources=copy_sources(w, op) if op[0] in COPY_OPS else None)
+
     def post(w, si, step, ctx):
+        if si < probe_from:
+            pr.obs.append(None)
+            return []
+        held_msg = pr.check_held(w, ctx["held"]) if ctx else None
         cur = pr.observe(w)
         out = []
+        if held_msg:
+            out.append(("lookup", held_msg))
+        if pr.alias_msg:
+            out.append(("lookup", pr.alias_msg))
+        if ctx and ctx.get("sources") is not None:
+            m = copy_provenance_oracle(w, step, ctx["sources"])
+            if m:
+                out.append(("lookup", m))
         for ti in range(len(w.trees)):
             try:
                 m = lookup_oracle(w, ti, pr, cur[ti])
@@ -457,7 +596,7 @@ def hooks(ops, stats=None):
             out.append(("lookup", m))
         return out
 
-    return pr, None, post
+    return pr, pre, post
 
 
 # ---------------------------------------------------------------------------
@@ -470,13 +609,61 @@ class Gen02(mut_c01.Gen01):
     def step(self):
         if self.rng.random() < 0.35:
             k = self.rng.choice(["rekey_group", "rekey_group", "split_group", "split_group", "single", "single", "readd", "remove_one_clone",
-                                 "clone_pair"])
+                                 "clone_pair", "clone_pair", "iter_remove", "iter_remove", "deep_copy_ids"])
             try:
                 if getattr(self, "sp_" + k)():
                     return
             except Exception:
                 pass
         return super().step()
+
+    def do(self, op):
+        if op[0] == "iter_remove":          # not an op of mut.execute: mut_ex.replay expands it; here it just happens
+            self.ops.append(op)
+            try:
+                for nd in list(self.w.trees[op[1]].find_all(data_id=op[2])):
+                    if nd._tree is not None:
+                        nd.remove()
+            except Exception:
+                pass
+            return
+        return super().do(op)
+
+    def sp_iter_remove(self):
+        """for n in tree.find_all(data_id=e): n.remove()   on an id carried by several nodes"""
+        w, rng = self.w, self.rng
+        ti = self.pick_tree()
+        t = w.trees[ti]
+        ids = [e for e, g in t._nodes_by_data_id.items() if len(g) > 1 and isinstance(e, (int, str))]
+        if not ids:
+            return self.sp_clone_pair()
+        self.do(["iter_remove", ti, rng.choice(ids)])
+        return True
+
+    def sp_deep_copy_ids(self):
+        """deep copy of a branch whose DESCENDANTS carry explicit ids / callback ids (into the same or another tree, or as a new tree)"""
+        w, rng = self.w, self.rng
+        ti = self.pick_tree()
+        t = w.trees[ti]
+        n = self._pick(ti, lambda x: bool(x._children))
+        if n is None:
+            return False
+        c = rng.choice(n._children)
+        if mut_c01.explicit_did_of(t, c) is None and rng.random() < 0.8:
+            # give a descendant an explicit id first
+            self.do(["add", ti, w.rel(n), rng.randrange(len(self.univ)), f"D{len(self.ops)}", self._kind(ti), None])
+        how = rng.choice(["copyto", "copyto", "nodecopy", "treecopy", "addnode"])
+        if how == "copyto":
+            tti = self.pick_tree()
+            self.do(["copyto", ti, w.rel(n), tti, self.any_node(tti), rng.random() < 0.6, None, True])
+        elif how == "nodecopy" and len(w.trees) < 3:
+            self.do(["nodecopy", ti, w.rel(n), rng.random() < 0.5])
+        elif how == "treecopy" and len(w.trees) < 3:
+            self.do(["treecopy", ti])
+        else:
+            tti = self.pick_tree()
+            self.do(["addnode", tti, self.any_node(tti), ti, w.rel(n), None, self._kind(tti), None, True])
+        return True
 
     def sp_single(self):
         w, rng = self.w, self.rng
